@@ -129,14 +129,16 @@ def replay(mods, scn, cse=None):
             if not (abs(scw - sc) <= 1e-9 * max(1.0, abs(sc))):
                 bad("score-unit-weights", expected=sc, observed=scw)
         # (5) by hand on the exported filter, in the plan's order
-        def by_hand(ekf, T, label):
+        plan0 = [({c: fl(q) for c, q in named(st["u"]).items()}, {key: {r: fl(q) for r, q in st["z"][key].items()} for key in st["keyorder"]}) for st in rows]
+
+        def by_hand(ekf, T, label, plan=None):
             nn = 0
             state, cov = ekf.State(), ekf.Covariance()
-            for i, st in enumerate(rows):
-                ctl = ekf.Control(**{c: fl(q) for c, q in named(st["u"]).items()})
+            for i, (u_, z_) in enumerate(plan or plan0):
+                ctl = ekf.Control(**u_)
                 state, cov = ekf.process_model(0.1, state, cov, ctl)
-                for j, key in enumerate(st["keyorder"]):
-                    rd = ekf.make_reading(key, **{r: fl(q) for r, q in st["z"][key].items()})
+                for j, key in enumerate(keyorder):
+                    rd = ekf.make_reading(key, **z_[key])
                     state, cov = ekf.sensor_model(state, cov, sensor_key=key, sensor_reading=rd)
                     y = ekf.innovations[key]
                     S = ekf.sensor_prediction_uncertainty[key]
@@ -163,6 +165,32 @@ def replay(mods, scn, cse=None):
             adapter.set_params(innovation_filtering=other)
             T3 = np.array(adapter.transform(X), dtype=float)
             n += by_hand(adapter.export_python(), T3, "by-hand-after-set_params(innovation_filtering=%s)" % other)
+        # (9) a quiet log: readings within 1e-5 .. 1e-3 of what the filter predicts (normalised innovations of 1e-10 .. 1e-6, as
+        #     a well-tuned filter on good data produces).  The specification says transform, mahalanobis and the filter's own
+        #     NIS are ONE quantity whatever its magnitude; the exact window cannot hold such values, so the reference is the
+        #     exported filter folded by hand, as in (5)
+        adapter.set_params(innovation_filtering=d.gate())
+        ekf = adapter.export_python()
+        state, cov = ekf.State(), ekf.Covariance()
+        plan, X2 = [], []
+        for i, (u_, _) in enumerate(plan0):
+            state, cov = ekf.process_model(0.1, state, cov, ekf.Control(**u_))
+            zrow = {}
+            for j, key in enumerate(keyorder):
+                pred = ekf.sensor_models[key].model(state)
+                names_ = [str(r) for r in ekf.sensor_models[key].readings]
+                zrow[key] = {r: float(pred.data[t, 0]) + (10.0 ** -(5 - (i + j + t) % 3)) * (1 if (i + t) % 2 == 0 else -1) for t, r in enumerate(names_)}
+                state, cov = ekf.sensor_model(state, cov, sensor_key=key, sensor_reading=ekf.make_reading(key, **zrow[key]))
+            plan.append((u_, zrow))
+            X2.append([u_[c] for c in rows[0]["ctlorder"]] + [zrow[key][r] for key in keyorder for r in rows[0]["rorder"][key]])
+        X2 = np.array(X2, dtype=float)
+        if np.all(np.isfinite(X2)):
+            T4 = np.array(adapter.transform(X2), dtype=float)
+            M4 = np.array(adapter.mahalanobis(X2), dtype=float)
+            n += by_hand(adapter.export_python(), T4, "by-hand-quiet-log", plan)
+            n += 1
+            if M4.shape != (T4.size,) or not np.array_equal(M4, T4.flatten()):
+                bad("mahalanobis-quiet-log", expected=T4.flatten().tolist(), observed=M4.tolist())
     except Exception as e:
         bad("exception", observed=repr(e)[:400], tb=traceback.format_exc()[-1500:])
     return {"mismatches": mism, "values": n}
